@@ -38,6 +38,7 @@ CONSTANTS Par(_),        \* parent id of a block
           Order,         \* sequence of the steps between "idx" and the bft part, e.g. <<"blk", "cache", "pub">>
           CheckAccepts,  \* TRUE: the importer refuses blocks whose parent is not on the finalized chain (bft.Accepts)
           SimCommits,    \* FALSE: a call simulation discards its private state (TRUE = seeded fault, teeth)
+          WithNext,      \* TRUE: readers also issue revision-"next" requests (kept out of the big configs: it multiplies states)
           NextTwoLoads   \* FALSE: revision "next" derives header AND state from ONE load of best (TRUE = seeded fault, teeth)
 
 VARIABLES dState,   \* blocks whose state tries are completely durable
@@ -57,12 +58,12 @@ VARIABLES dState,   \* blocks whose state tries are completely durable
           lastFin,  \* reader -> last observed finalized checkpoint
           fail,     \* reader -> a read for its observed block failed or returned another block's data
           finBack,  \* reader -> an observation of finalized went backwards
-          nxt       \* reader -> [hdr, st]: revision "next" in flight / last answered: the block the mocked header is a
-                    \* child of, and the block whose state the request executes on (NoBlock = not yet taken)
+          nxt,      \* reader -> revision "next" in flight: the block its mocked header is the child of (NoBlock = none)
+          torn      \* reader -> a revision-"next" request got the state of another block than its header's parent
 durable == <<dState, idx, dBlk, dBest, dQ, dFin, dLogs, dJunk>>
 memory  == <<cSum, mBest, mFin>>
 importer == <<cur, pc, asBest, finTo>>
-readers == <<obs, lastFin, fail, finBack, nxt>>
+readers == <<obs, lastFin, fail, finBack, nxt, torn>>
 vars == <<durable, memory, importer, readers>>
 
 RECURSIVE AncAt(_, _)
@@ -76,7 +77,7 @@ InitWith(g) ==
   /\ cur = NoBlock /\ pc = "idle" /\ asBest = FALSE /\ finTo = NoBlock
   /\ obs = [r \in Readers |-> NoBlock] /\ lastFin = [r \in Readers |-> g]
   /\ fail = [r \in Readers |-> FALSE] /\ finBack = [r \in Readers |-> FALSE]
-  /\ nxt = [r \in Readers |-> [hdr |-> NoBlock, st |-> NoBlock]]
+  /\ nxt = [r \in Readers |-> NoBlock] /\ torn = [r \in Readers |-> FALSE]
 
 ------------------------------------------------------------------------------------------------------------------
 (* importer *)
@@ -166,35 +167,37 @@ ReadOK(kind, b, n) == CASE kind = "hdr"   -> SummaryAvail(b)
                         [] OTHER          -> FALSE
 
 ObserveBest(r) == /\ obs' = [obs EXCEPT ![r] = mBest]
-                  /\ UNCHANGED <<durable, memory, importer, lastFin, fail, finBack, nxt>>
+                  /\ UNCHANGED <<durable, memory, importer, lastFin, fail, finBack, nxt, torn>>
 \* a read for the block the reader holds; GetOrLoad fills the summary cache
 Read(r, kind, n) ==
   /\ obs[r] # NoBlock /\ n \in 0..Num(obs[r])
   /\ (kind # "anc" => n = 0)
   /\ fail' = [fail EXCEPT ![r] = @ \/ ~ReadOK(kind, obs[r], n)]
   /\ cSum' = IF kind \in {"hdr", "body", "anc"} /\ obs[r] \in dBlk THEN cSum \cup {obs[r]} ELSE cSum
-  /\ UNCHANGED <<durable, mBest, mFin, importer, obs, lastFin, finBack, nxt>>
+  /\ UNCHANGED <<durable, mBest, mFin, importer, obs, lastFin, finBack, nxt, torn>>
 \* call simulation (POST /accounts): executes on a private state over the observed root, writes stay in that overlay
 Simulate(r) ==
   /\ obs[r] # NoBlock
   /\ fail' = [fail EXCEPT ![r] = @ \/ ~ReadOK("sim", obs[r], 0)]
   /\ dJunk' = IF SimCommits THEN dJunk \cup {obs[r]} ELSE dJunk
-  /\ UNCHANGED <<dState, idx, dBlk, dBest, dQ, dFin, dLogs, memory, importer, obs, lastFin, finBack, nxt>>
+  /\ UNCHANGED <<dState, idx, dBlk, dBest, dQ, dFin, dLogs, memory, importer, obs, lastFin, finBack, nxt, torn>>
 \* Engine.Finalized(): one atomic load; the revision "finalized" then reads that block and its state
 ObserveFinalized(r) ==
   /\ lastFin' = [lastFin EXCEPT ![r] = mFin]
   /\ finBack' = [finBack EXCEPT ![r] = @ \/ ~IsAnc(lastFin[r], mFin)]
   /\ fail' = [fail EXCEPT ![r] = @ \/ ~(SummaryAvail(mFin) /\ StateAvail(mFin))]
-  /\ UNCHANGED <<durable, memory, importer, obs, nxt>>
+  /\ UNCHANGED <<durable, memory, importer, obs, nxt, torn>>
 \* restutil.GetSummaryAndState for the revision "next" (call simulation on the block to come): best is loaded ONCE; the
 \* mocked header (parent id, number, state root) is built from that capture (NextHeader) and, as a separate step - the
 \* importer may publish in between -, the state is created at the root of THE SAME capture (NextState).
-NextHeader(r) == /\ nxt' = [nxt EXCEPT ![r] = [hdr |-> mBest, st |-> NoBlock]]
-                 /\ UNCHANGED <<durable, memory, importer, obs, lastFin, fail, finBack>>
-NextState(r) == /\ nxt[r].hdr # NoBlock /\ nxt[r].st = NoBlock
-                /\ LET b == IF NextTwoLoads THEN mBest ELSE nxt[r].hdr IN
-                   /\ nxt' = [nxt EXCEPT ![r].st = b]
+NextHeader(r) == /\ WithNext
+                 /\ nxt' = [nxt EXCEPT ![r] = mBest]
+                 /\ UNCHANGED <<durable, memory, importer, obs, lastFin, fail, finBack, torn>>
+NextState(r) == /\ nxt[r] # NoBlock
+                /\ LET b == IF NextTwoLoads THEN mBest ELSE nxt[r] IN
+                   /\ torn' = [torn EXCEPT ![r] = @ \/ b # nxt[r]]
                    /\ fail' = [fail EXCEPT ![r] = @ \/ ~StateAvail(b)]
+                /\ nxt' = [nxt EXCEPT ![r] = NoBlock]
                 /\ UNCHANGED <<durable, memory, importer, obs, lastFin, finBack>>
 
 Kinds == {"hdr", "body", "anc", "state"}
@@ -216,7 +219,7 @@ DurableBehindMemory == Complete(dBest) /\ IsAnc(mFin, dFin) /\ (mBest # dBest =>
 FinalizedMonotonePerReader == \A r \in Readers : ~finBack[r]
 \* the (header, state) pair handed to a call simulation at revision "next" is ONE snapshot: the state is the state of
 \* the block the mocked header is the child of
-NextIsOneSnapshot == \A r \in Readers : nxt[r].st # NoBlock => nxt[r].st = nxt[r].hdr
+NextIsOneSnapshot == \A r \in Readers : ~torn[r]
 \* no reader step changes anything durable (caches may be filled)
 QueriesAreReadOnly == [][ReaderStep => UNCHANGED durable]_vars
 NoQueryWrites == dJunk = {}
